@@ -276,6 +276,8 @@ def r4(ctx):
 
 
 def run(ctx):
+    from . import C05
+    C05.r7(ctx, R="C14-R6")   # link deliveries are timed on the topology runtime's tokio clock: it must not run ahead of virtual time
     scan_rule(ctx, "C14")
     r4(ctx)
     r1(ctx)
